@@ -30,7 +30,7 @@ def r1_transparent(R) -> None:
         calls = f.nodes_with(lambda x, m=m: is_super_call(x, m))
         if spec['returns'] and not any(r_.ast.value is not None for r_ in f.returns()):
             R.violation(q, 'wrapper-returns-nothing', f'`{m}` has no `return <value>`: whatever the base method returns (the solved flag) is dropped and every caller '
-                        f'(solve(), solve_period()) receives None', where=f.fi.where)
+                        f'(solve(), solve_period()) receives None', where=f.fi.where, mismatch=True)
             continue
         # a candidate: any call that mentions super() (the base method reached through a helper, getattr, a bound local)
         if not R.require(q, len(calls), f'super().{m}(...)', fi=f.fi,
